@@ -1,0 +1,9 @@
+//! Read-only observation hook (feature `verif-hooks`).
+use super::*;
+
+impl PacketBuilder {
+    /// Number of bytes of a partially received packet currently buffered.
+    pub fn verif_buffered(&self) -> usize {
+        self.header_buf.len() + self.raw_buf_offset
+    }
+}
